@@ -15,7 +15,7 @@
    `open_connection` (translate, bind the socket to (local_ip, port) WITHOUT SO_REUSEADDR unless
    the user asked for it, connect, CQL handshake) is an oracle: per port it yields one of the three
    classes the `match` distinguishes.  The oracle is a function of the port: the loop calls it at
-   most once per port (C11_connect_tried_nodup), so a time-dependent environment is covered. *)
+   most once per port (C11_connect_tried: the attempts are duplicate-free), so a time-dependent environment is covered. *)
 From SV Require Import Base.Prelude Model.Shard.
 Open Scope N_scope.
 
@@ -80,3 +80,41 @@ Definition starvedb (n s lo hi : N) (pre : list N) : bool :=
 (* the environments of the end-to-end tie: attempts from a pre-bound port are address-in-use *)
 Definition respects (pre : list N) (avail : N -> outcome) : Prop :=
   forall q, In q pre -> avail q = AddrUnavailable.
+
+(* ---- what the driver RUNS on the end-to-end lines -------------------------------------- *)
+
+(* the environment of a scenario as far as it is known: exactly the ports of [busy] (held by the
+   harness, or carrying a connection of the session) are address-unavailable, every other attempt
+   connects *)
+Definition env_busy (busy : list N) : N -> outcome :=
+  fun q => if memb q busy then AddrUnavailable else Connected.
+
+(* successive runs of open_connection_to_shard_aware_port for one shard -- one per pool slot the
+   refiller wants to fill through the shard-aware port, over all nodes: the client address and so
+   the local ports are shared -- , [pivots] = the pivot every run draws.  The source port of a
+   connection that was opened stays busy for the later runs (bound socket; TIME_WAIT after the
+   driver dropped it).  Result: the source ports of the connections opened, in order. *)
+Fixpoint open_many (n s lo hi : N) (pivots : list nat) (busy : list N) : list N :=
+  match pivots with
+  | [] => []
+  | pv :: r =>
+      match open_shard_aware n s lo hi pv (env_busy busy) with
+      | Conn p => p :: open_many n s lo hi r (p :: busy)
+      | _ => open_many n s lo hi r busy
+      end
+  end.
+
+(* the ports of the shard that are not busy *)
+Definition free_ports (n s lo hi : N) (busy : list N) : list N :=
+  filter (fun p => negb (memb p busy)) (spec_ports n s lo hi).
+
+(* is [port] the outcome of the loop for SOME pivot below [k] in the known environment? *)
+Fixpoint some_pivot_gives (n s lo hi : N) (busy : list N) (port : N) (k : nat) : bool :=
+  match k with
+  | O => false
+  | S k' =>
+      match open_shard_aware n s lo hi k' (env_busy busy) with
+      | Conn p => (p =? port) || some_pivot_gives n s lo hi busy port k'
+      | _ => some_pivot_gives n s lo hi busy port k'
+      end
+  end.
